@@ -7,3 +7,44 @@ package snapshot
 
 //@ func (kv *KV) MaskedFlags
 //@   inline
+
+//@ func expectWT
+//@   inline
+
+// skipTag: length of the field payload at the start of data; never negative,
+// never beyond the data (so callers always make progress and stay in range).
+//@ func skipTag
+//@   nopanic
+//@   pure
+//@   ensures in_range: err == nil ==> 0 <= skip && skip <= len(data)
+//@   ensures progress: err == nil ==> skip >= 1
+//@   ensures err_zero: err != nil ==> skip == 0
+
+//@ func (kv *KV) Unmarshal
+//@   nopanic
+//@   modifies *kv
+//@   loop 0 invariant range: 0 <= offset && offset <= dataSize && dataSize == len(data)
+//@   loop 0 decreases dataSize - offset
+//@   loop 0 invariant key_in_data: sameSlice(kv.Key, old(kv.Key)) || sameArray(kv.Key, data)
+//@   loop 0 invariant val_in_data: sameSlice(kv.Value, old(kv.Value)) || sameArray(kv.Value, data)
+//@   ensures key_in_data: sameSlice(kv.Key, old(kv.Key)) || sameArray(kv.Key, data)
+//@   ensures val_in_data: sameSlice(kv.Value, old(kv.Value)) || sameArray(kv.Value, data)
+
+//@ func (d *DBI) Next
+//@   requires cur_in_range: 0 <= d.cur && d.cur <= len(d.data)
+//@   nopanic
+//@   modifies d.cur
+//@   loop 0 invariant range: 0 <= offset && offset <= len(d.data) && offset >= d.cur
+//@   loop 0 decreases len(d.data) - offset
+//@   ensures cur_in_range: 0 <= d.cur && d.cur <= len(d.data)
+//@   ensures advances: err == nil ==> d.cur > old(d.cur)
+//@   ensures cursor_monotone: d.cur >= old(d.cur)
+
+//@ func (d *DBI) indexData
+//@   nopanic
+//@   modifies d.name, d.flags, d.transform, d.flushed
+//@   loop 0 invariant range: 0 <= offset && offset <= len(data) && sameSlice(data, d.data)
+//@   loop 0 decreases len(data) - offset
+
+//@ func NewDBIFromData
+//@   nopanic
